@@ -507,18 +507,41 @@ static void script_history(char* line) {
 
 
 /* C12 growth clause: n insertions into an indefinite container; capacity observed after every insertion */
+static int grow_faulty; /* every growth step is first attempted with its allocation request refused */
 static void grow_case(int kind, long n) {
   long live0 = va.live;
   cbor_item_t* leaf = kind == 2 ? cbor_build_bytestring((const unsigned char*)"z", 1) : kind == 3 ? cbor_build_string("z") : cbor_build_uint8(7);
   cbor_item_t* c = kind == 0 ? cbor_new_indefinite_array() : kind == 1 ? cbor_new_indefinite_map() : kind == 2 ? cbor_new_indefinite_bytestring() : cbor_new_indefinite_string();
-  long r0 = va.reallocs, refused = 0, shrunk = 0, over = 0;
+  long r0 = va.reallocs, refused = 0, shrunk = 0, over = 0, under = 0, injected = 0, changed_on_refusal = 0;
   size_t cap = 0;
   fprintf(vh_out, "{\"e\":\"grow\",\"kind\":%d,\"n\":%ld,\"caps\":[", kind, n);
   int first = 1;
   for (long i = 0; i < n; i++) {
-    bool ok = kind == 0 ? cbor_array_push(c, leaf) : kind == 1 ? cbor_map_add(c, (struct cbor_pair){.key = leaf, .value = leaf})
-              : kind == 2 ? cbor_bytestring_add_chunk(c, leaf) : cbor_string_add_chunk(c, leaf);
-    if (!ok) refused++;
+    bool ok;
+    for (int attempt = 0; attempt < 2; attempt++) {
+      size_t sz0 = kind == 0 ? cbor_array_size(c) : kind == 1 ? cbor_map_size(c) : nkids(c);
+      size_t cap0 = kind == 0 ? cbor_array_allocated(c) : kind == 1 ? cbor_map_allocated(c) : ((struct cbor_indefinite_string_data*)c->data)->chunk_capacity;
+      long ref0 = va.refused;
+      if (grow_faulty && attempt == 0 && sz0 == cap0) { va_fault_mode = VA_ONLY; va_fault_k = va.requests; }
+      ok = kind == 0 ? cbor_array_push(c, leaf) : kind == 1 ? cbor_map_add(c, (struct cbor_pair){.key = leaf, .value = leaf})
+           : kind == 2 ? cbor_bytestring_add_chunk(c, leaf) : cbor_string_add_chunk(c, leaf);
+      va_fault_mode = VA_NONE;
+      if (va.refused > ref0) injected++;
+      if (ok) break;
+      refused++;
+      /* a refused insertion changes nothing */
+      size_t sz1 = kind == 0 ? cbor_array_size(c) : kind == 1 ? cbor_map_size(c) : nkids(c);
+      size_t cap1 = kind == 0 ? cbor_array_allocated(c) : kind == 1 ? cbor_map_allocated(c) : ((struct cbor_indefinite_string_data*)c->data)->chunk_capacity;
+      if (sz1 != sz0 || cap1 != cap0) changed_on_refusal++;
+      if (va.refused == ref0) break; /* refused without any injected fault: do not insist */
+    }
+    {
+      /* the block behind the container really has room for the capacity it records */
+      const void* blk = kind <= 1 ? (const void*)c->data : (const void*)((struct cbor_indefinite_string_data*)c->data)->chunks;
+      size_t capn = kind == 0 ? cbor_array_allocated(c) : kind == 1 ? cbor_map_allocated(c) : ((struct cbor_indefinite_string_data*)c->data)->chunk_capacity;
+      size_t elem = kind == 1 ? sizeof(struct cbor_pair) : sizeof(cbor_item_t*);
+      if (capn > 0 && (!blk || va_block_size(blk) < capn * elem)) under++;
+    }
     size_t nc = kind == 0 ? cbor_array_allocated(c) : kind == 1 ? cbor_map_allocated(c) : ((struct cbor_indefinite_string_data*)c->data)->chunk_capacity;
     size_t sz = kind == 0 ? cbor_array_size(c) : kind == 1 ? cbor_map_size(c) : nkids(c);
     if (nc < cap) shrunk++;
@@ -528,8 +551,8 @@ static void grow_case(int kind, long n) {
   size_t sz = kind == 0 ? cbor_array_size(c) : kind == 1 ? cbor_map_size(c) : nkids(c);
   long wrong = 0;
   for (size_t k = 0; k < nkids(c); k++) if (kid(c, k) != leaf) wrong++;
-  fprintf(vh_out, "],\"size\":%zu,\"reallocs\":%ld,\"refused\":%ld,\"shrunk\":%ld,\"over\":%ld,\"wrong\":%ld,\"leaf_rc\":%zu", sz, va.reallocs - r0, refused, shrunk, over, wrong,
-          cbor_refcount(leaf));
+  fprintf(vh_out, "],\"size\":%zu,\"reallocs\":%ld,\"refused\":%ld,\"injected\":%ld,\"under\":%ld,\"changed_on_refusal\":%ld,\"shrunk\":%ld,\"over\":%ld,\"wrong\":%ld,\"leaf_rc\":%zu", sz,
+          va.reallocs - r0, refused, injected, under, changed_on_refusal, shrunk, over, wrong, cbor_refcount(leaf));
   cbor_decref(&c);
   fprintf(vh_out, ",\"leaf_rc_after\":%zu", cbor_refcount(leaf));
   cbor_decref(&leaf);
@@ -560,6 +583,11 @@ int main(int argc, char** argv) {
       grow_case(kind, n);
       grow_case(kind, 1 + (long)vh_randn(n));
       for (long m = 0; m <= 17; m++) grow_case(kind, m);
+      /* the same with every growth step refused once before it is allowed: the refused insertion changes nothing, the next one grows */
+      grow_faulty = 1;
+      grow_case(kind, n < 5000 ? n : 5000);
+      grow_case(kind, 17);
+      grow_faulty = 0;
     }
   } else if (!strcmp(argv[1], "script")) {
     FILE* f = fopen(argv[2], "r");
